@@ -133,7 +133,7 @@ PROPS = {
                "cases = generated scripts (0..7 steps, recursive nesting <=3) x target closed or not x 0..2 follow-up sends x receive-inside-deserialise; non-trivial = a failure after >=1 visited attachment, or nesting with attachments on both levels; distinct = distinct (build, canonical JSON)"),
     ),
     "C13": dict(
-        jobs=lambda tier: [dict(build="os", params=dict({"sndbuf": "8192"} if sb else {}, cases="0" if tier == "quick" else "30000"), shards=8) for sb in (8192, 0)],
+        jobs=lambda tier: [dict(build="os", params=dict({"sndbuf": "8192"} if sb else {}, cases="1500" if tier == "quick" else "30000"), shards=8) for sb in (8192, 0)],
         meta=M("fault_enumeration",
                "exhaustive fault enumeration: all 2^10 ENOBUFS patterns over the first 10 transmission attempts x 5 message shapes x 2 attachment modes x 2 send-buffer sizes, injected at the interposed libc boundary; thorough adds generated 64-attempt masks and lengths (proptest)",
                "Every ENOBUFS pattern over the first 10 transmission attempts of one send is injected (the interposed sendmsg/send of the sending thread fails without transmitting) for each listed message shape with and without attachments and for two reported send-buffer sizes: 20 480 sends, swept completely in both tiers. Ok => exact payload + probed attachments + intact follow-on message; Err => no complete-looking message, at most one receiver-side error, follow-on intact; no receive saw MSG_TRUNC; descriptor count unchanged.",
